@@ -11,7 +11,7 @@ use embedded_graphics::{
     mono_font::MonoFont,
     pixelcolor::*,
     prelude::*,
-    text::{renderer::TextRenderer, Baseline},
+    text::{renderer::TextRenderer, Baseline, LineHeight},
 };
 
 type C = Rgb565;
@@ -235,6 +235,48 @@ fn main() {
                 largest = i;
             }
         }
+        // the documented absolute line height itself: `Percent(p)` of a base height b is floor(b p / 100)
+        // for every base height a font can have and every percentage a style can reasonably carry
+        // (exhaustive: seeded `C15-12` replaced the division by a reciprocal multiplication that is
+        // exact for all products below 4699)
+        run.section("line-height-to-absolute", |ctx| {
+            let (bmax, pmax) = if ctx.run.quick() { (64u32, 2000u32) } else { (256u32, 10_000u32) };
+            let mut bad = 0u32;
+            for b in 0..=bmax {
+                for p in 0..=pmax {
+                    ctx.eval();
+                    let got = LineHeight::Percent(p).to_absolute(b);
+                    let want = ((b as u64 * p as u64) / 100) as u32;
+                    if got != want && bad < 3 {
+                        bad += 1;
+                        ctx.violation("line-height|percent-to-absolute", || format!("LineHeight::Percent({}).to_absolute({})", p, b), || format!("{} instead of floor({} * {} / 100) = {}", got, b, p, want));
+                    }
+                    if LineHeight::Pixels(p).to_absolute(b) != p && bad < 3 {
+                        bad += 1;
+                        ctx.violation("line-height|pixels-to-absolute", || format!("LineHeight::Pixels({}).to_absolute({})", p, b), || "not the given pixel count".to_string());
+                    }
+                }
+            }
+            // larger operands whose product still fits 32 bits
+            let mut x = 0x9E37_79B9u32;
+            for _ in 0..2_000_000u32 {
+                x ^= x << 13;
+                x ^= x >> 17;
+                x ^= x << 5;
+                let b = x % 2049;
+                let p = (x >> 11) % (if b == 0 { 100_000 } else { (u32::MAX / b).min(2_000_000) + 1 });
+                ctx.eval();
+                let got = LineHeight::Percent(p).to_absolute(b);
+                let want = ((b as u64 * p as u64) / 100) as u32;
+                if got != want && bad < 3 {
+                    bad += 1;
+                    ctx.violation("line-height|percent-to-absolute", || format!("LineHeight::Percent({}).to_absolute({})", p, b), || format!("{} instead of {}", got, want));
+                }
+            }
+            ctx.nontrivial(0x11ae);
+            ctx.nontrivial(0x11af);
+            ctx.count("line_heights_converted", (bmax as u64 + 1) * (pmax as u64 + 1) + 2_000_000);
+        });
         let quick = run.quick();
         let seed = run.seed();
         let nb = run.tier(60_000u64, 30_000_000u64);
